@@ -38,10 +38,10 @@ func Run(cfg hx.Config) (*hx.Meta, error) {
 	r := hx.NewRand(cfg.Seed)
 	cat := ga.NewCatalogue()
 	var shapes []*ga.Type
-	pool := 16
+	pool, nmut := 16, 2
 	if cfg.Tier == "thorough" {
 		shapes = cat.Shapes(r, 2, 1500)
-		pool = 32
+		pool, nmut = 32, 6
 	} else {
 		// quick: every leaf and every depth-1 shape, a seeded slice of the depth-2 shapes, random deeper ones
 		shapes = cat.Shapes(r, 1, 40)
@@ -50,6 +50,16 @@ func Run(cfg hx.Config) (*hx.Meta, error) {
 		shapes = append(shapes, d2[:120]...)
 	}
 	shapes = ga.Dedup(append(extraTypes(cat), shapes...))
+	// round 4: generic instances and aliases; the members of a family are generated in one package
+	family := map[string]int{}
+	for fi, fam := range ga.HAFamilies(cat) {
+		for _, t := range fam {
+			if _, dup := family[t.Go(0)]; !dup {
+				family[t.Go(0)] = fi
+				shapes = append(shapes, t)
+			}
+		}
+	}
 	// outside the property's quantifier, kept as a demonstration that its guards are tight
 	// (C06_gostring_unexported_refuted / _infinite_refuted replayed on the real code): local
 	// structs with unexported fields - the model's evaluator and the Go compiler must both
@@ -126,8 +136,25 @@ func Run(cfg hx.Config) (*hx.Meta, error) {
 	meta.ObsFiles = append(meta.ObsFiles, supf)
 
 	// ---- batches ----
-	bts, bis := ga.Batches(ok, okIdx, 40)
+	var plainT []*ga.Type
+	var plainI []int
+	famT, famI := map[int][]*ga.Type{}, map[int][]int{}
+	for i, t := range ok {
+		if fi, isFam := family[t.Go(0)]; isFam {
+			famT[fi], famI[fi] = append(famT[fi], t), append(famI[fi], okIdx[i])
+		} else {
+			plainT, plainI = append(plainT, t), append(plainI, okIdx[i])
+		}
+	}
+	bts, bis := ga.Batches(plainT, plainI, 40)
+	for fi := 0; fi < len(famT)+8; fi++ {
+		if len(famT[fi]) > 0 {
+			bts, bis = append(bts, famT[fi]), append(bis, famI[fi])
+			meta.Count(fmt.Sprintf("family-batch/%d types=%d", fi, len(famT[fi])))
+		}
+	}
 	nb := len(bts)
+	hs := ga.HAStrings()
 	obsFiles := make([]string, nb)
 	errs := make([]error, nb)
 	rs := make([]*hx.Rand, nb)
@@ -156,6 +183,20 @@ func Run(cfg hx.Config) (*hx.Meta, error) {
 		for i, t := range p.types {
 			tc := &tcase{idx: p.idx[i], t: t}
 			vals := append(append([]*ga.Val{}, corpusVals[t.Go(0)]...), gen.Pool(t, map[int]*ga.Type{}, 3)...)
+			// round 4: copies of pool values whose strings (at every position that is not a map key) are
+			// replaced by strings that mix line ends, backquotes, carriage returns, invalid UTF-8, NUL, BOM, …
+			if nv := len(vals); nv > 0 {
+				want, tries := nmut, 0
+				for want > 0 && tries < 4*nmut {
+					tries++
+					src := vals[rs[b].Intn(nv)]
+					if m, n := ga.MutateStrings(src, gen.Fresh, func() string { return hs[rs[b].Intn(len(hs))] }); n > 0 {
+						vals = append(vals, m)
+						want--
+						meta.CountSafe("values/strings-mutated")
+					}
+				}
+			}
 			for _, v := range vals {
 				if !finite(t, v, map[int]*ga.Type{}) {
 					// outside the quantifier ("finite floats"): the text contains +Inf; model and compiler must both reject it
@@ -442,7 +483,11 @@ func (p *pkg) write() error {
 		t.UsesExt(callExt)
 	}
 	files := map[string]string{}
-	files["lib/decls.go"] = "package lib\n\n" + importBlock(declExt) + ga.DeclSource(p.decls, 0)
+	declSrc, declImports, declFiles := ga.DeclSourceHA(p.decls, 0, "p/lib")
+	files["lib/decls.go"] = "package lib\n\n" + importBlock(declExt, declImports...) + declSrc
+	for name, src := range declFiles {
+		files["lib/"+name] = src
+	}
 	var calls, regs, tys strings.Builder
 	calls.WriteString("package lib\n\n" + importBlock(callExt))
 	regs.WriteString("//go:build drv\n\npackage main\n\nimport \"p/lib\"\n\nfunc init() {\n")
